@@ -3,12 +3,37 @@ use crate::case::Case;
 use crate::gen_exp::{self, ExpCfg};
 use crate::rng::Rng;
 use crate::sx;
-use rooc::model_transformer::Exp;
+use rooc::model_transformer::{Constraint, Exp, Model, Objective};
+use rooc::{BinOp, Linearizer, UnOp};
+use crate::gen_model::{self, ModelCfg};
+
+/// NaN sign and payload are not observable through `f64` arithmetic and comparisons (x86 produces the
+/// "negative" default NaN for `0 * inf`, Lean's `Float.toBits` the canonical positive one): every NaN bit
+/// pattern in an encoded tree is replaced by the canonical quiet NaN before model and implementation are diffed.
+fn canon_nan(s: &str) -> String {
+    let b = s.as_bytes();
+    let mut out = String::with_capacity(s.len());
+    let mut i = 0;
+    while i < b.len() {
+        if b[i] == b'#' && i + 18 <= b.len() && b[i + 1] == b'x' {
+            if let Ok(bits) = u64::from_str_radix(&s[i + 2..i + 18], 16) {
+                if f64::from_bits(bits).is_nan() {
+                    out.push_str("#x7ff8000000000000");
+                    i += 18;
+                    continue;
+                }
+            }
+        }
+        out.push(b[i] as char);
+        i += 1;
+    }
+    out
+}
 
 fn one(e: &Exp, which: &str, tag: &str) -> Case {
-    let req_e = sx::exp(e);
+    let req_e = canon_nan(&sx::exp(e));
     let out = if which == "simplify" { e.simplify() } else { e.clone().flatten() };
-    let out_s = sx::exp(&out);
+    let out_s = canon_nan(&sx::exp(&out));
     let mut c = Case::default();
     c.req = format!("{} {}", which, req_e);
     c.imp = format!("(ok {})", out_s);
@@ -19,11 +44,103 @@ fn one(e: &Exp, which: &str, tag: &str) -> Case {
     if which == "simplify" {
         // idempotence, checked on the implementation directly
         let twice = out.simplify();
-        if sx::exp(&twice) != out_s {
+        if canon_nan(&sx::exp(&twice)) != out_s {
             c.impl_violation = Some(format!("simplify not idempotent: {} -> {} -> {}", e, out, twice));
         }
     }
     c
+}
+
+/// re-spell the constant `c` (same value, different tree)
+fn respell_const(r: &mut Rng, c: f64) -> Exp {
+    match r.below(5) {
+        0 if c < 0.0 => Exp::UnOp(UnOp::Neg, Box::new(Exp::Number(-c))),
+        1 => Exp::BinOp(BinOp::Sub, Box::new(Exp::Number(0.0)), Box::new(Exp::Number(-c))),
+        2 => Exp::BinOp(BinOp::Add, Box::new(Exp::Number(c - 1.0)), Box::new(Exp::Number(1.0))),
+        3 => Exp::BinOp(BinOp::Mul, Box::new(Exp::Number(c)), Box::new(Exp::Number(1.0))),
+        _ => Exp::BinOp(BinOp::Div, Box::new(Exp::Number(c * 2.0)), Box::new(Exp::Number(2.0))),
+    }
+}
+
+/// re-spell coefficients: `k * e`, `e * k`, `e / k` with `k` written differently (or the operands swapped)
+fn respell(r: &mut Rng, e: &Exp) -> Exp {
+    let mut go = |x: &Exp| Box::new(respell(r, x));
+    match e {
+        Exp::Number(_) | Exp::Variable(_) => e.clone(),
+        Exp::Abs(x) => Exp::Abs(go(x)),
+        Exp::Not(x) => Exp::Not(go(x)),
+        Exp::UnOp(op, x) => Exp::UnOp(*op, go(x)),
+        Exp::Min(es) => Exp::Min(es.iter().map(|x| respell(r, x)).collect()),
+        Exp::Max(es) => Exp::Max(es.iter().map(|x| respell(r, x)).collect()),
+        Exp::And(es) => Exp::And(es.iter().map(|x| respell(r, x)).collect()),
+        Exp::Or(es) => Exp::Or(es.iter().map(|x| respell(r, x)).collect()),
+        Exp::Xor(a, b) => { let x = go(a); let y = go(b); Exp::Xor(x, y) }
+        Exp::Implies(a, b) => { let x = go(a); let y = go(b); Exp::Implies(x, y) }
+        Exp::Iff(a, b) => { let x = go(a); let y = go(b); Exp::Iff(x, y) }
+        Exp::BinOp(BinOp::Mul, a, b) => {
+            let (a2, b2) = (respell(r, a), respell(r, b));
+            match (&**a, &**b) {
+                (Exp::Number(c), _) if r.chance(2, 3) => {
+                    let k = respell_const(r, *c);
+                    if r.chance(1, 3) { Exp::BinOp(BinOp::Mul, Box::new(b2), Box::new(k)) } else { Exp::BinOp(BinOp::Mul, Box::new(k), Box::new(b2)) }
+                }
+                (_, Exp::Number(c)) if r.chance(2, 3) => {
+                    let k = respell_const(r, *c);
+                    if r.chance(1, 3) { Exp::BinOp(BinOp::Mul, Box::new(k), Box::new(a2)) } else { Exp::BinOp(BinOp::Mul, Box::new(a2), Box::new(k)) }
+                }
+                _ => Exp::BinOp(BinOp::Mul, Box::new(a2), Box::new(b2)),
+            }
+        }
+        Exp::BinOp(op, a, b) => { let x = go(a); let y = go(b); Exp::BinOp(*op, x, y) }
+    }
+}
+
+fn respell_case(r: &mut Rng) -> Option<Case> {
+    let cfg = ModelCfg { max_vars: 3, depth: 2, logic: false, piecewise: true, unbounded: true, fractional: false, strict_cmp: false, hostile: false };
+    let (m, ds) = gen_model::model(r, &cfg);
+    // make sure a scaled piecewise term is present: the direction a min/max/abs is relaxed in depends on the
+    // SIGN of the coefficient, which is where spellings (`k * e`, `e * k`, `e / (1/k)`) can come apart
+    let m = {
+        let affine = ModelCfg { max_vars: 3, depth: 1, logic: false, piecewise: false, unbounded: false, fractional: false, strict_cmp: false, hostile: false };
+        let mut piece = |r: &mut Rng| {
+            let a = gen_model::num_exp(r, &ds, &affine, 1);
+            let b = gen_model::num_exp(r, &ds, &affine, 1);
+            match r.below(3) { 0 => Exp::Max(vec![a, b]), 1 => Exp::Min(vec![a, b]), _ => Exp::Abs(Box::new(a)) }
+        };
+        let k = *r.pick(&[-2.0, -1.0, -3.0, 2.0, -0.5]);
+        let scaled = Exp::BinOp(BinOp::Mul, Box::new(Exp::Number(k)), Box::new(piece(r)));
+        let mut cons = m.constraints().clone();
+        let mut obj = m.objective().rhs.clone();
+        if r.chance(2, 3) { cons.push(Constraint::new(scaled, gen_model::comparison(r), Exp::Number(gen_model::constant(r, false)), String::new())); }
+        else { obj = Exp::BinOp(BinOp::Add, Box::new(obj), Box::new(scaled)); }
+        gen_model::build(m.objective().objective_type.clone(), obj, cons, &ds)
+    };
+    let cons: Vec<Constraint> = m.constraints().iter().map(|c| Constraint::new(respell(r, c.lhs()), c.constraint_type(), respell(r, c.rhs()), c.name().to_string())).collect();
+    let m2 = gen_model::build(m.objective().objective_type.clone(), respell(r, &m.objective().rhs), cons, &ds);
+    if sx::model(&m) == sx::model(&m2) { return None; }
+    let a = Linearizer::linearize(m.clone());
+    let b = Linearizer::linearize(m2.clone());
+    let mut c = Case::default();
+    c.show = format!("{}  ~~respelled~~>  {}", format!("{}", m).replace('\n', " ; "), format!("{}", m2).replace('\n', " ; "));
+    c.tags = vec!["respell".into()];
+    c.nontrivial = true;
+    match (&a, &b) {
+        (Ok(la), Ok(lb)) => {
+            c.imp = "(both-compile)".into();
+            c.tags.push(if sx::lin_model(la) == sx::lin_model(lb) { "respell-identical-output".into() } else { "respell-different-output".into() });
+            // the respelled model's compiled output must denote the ORIGINAL model's feasible set
+            c.oracle = format!("py:{} {} {}", if r.chance(1, 2) { "c01" } else { "c02" }, sx::model(&m), sx::lin_model(lb));
+        }
+        (Err(_), Err(_)) => { c.imp = "(both-rejected)".into(); c.tags.push("respell-both-rejected".into()); }
+        (x, y) => {
+            c.imp = format!("(acceptance-differs {} {})", x.is_ok(), y.is_ok());
+            c.sig = Some("respelling-changes-acceptance".into());
+            let e = x.as_ref().err().or(y.as_ref().err()).map(|e| crate::props::c01::lin_error(e)).unwrap_or_default();
+            c.impl_violation = Some(format!("two spellings of the same constants: one compiles, the other is rejected with {}", e));
+        }
+    }
+    let _ = (Objective::new, Model::new);
+    Some(c)
 }
 
 pub fn generate(seed: u64, n: usize, thorough: bool, _corpus: Option<&str>) -> Vec<Case> {
@@ -39,6 +156,35 @@ pub fn generate(seed: u64, n: usize, thorough: bool, _corpus: Option<&str>) -> V
         cases.push(one(&e, "simplify", "exhaustive"));
         cases.push(one(&e, "flatten", "exhaustive"));
     }
+    // regression inputs found by earlier thorough runs (machinery false alarms and finding variants)
+    {
+        use rooc::{BinOp, UnOp};
+        let n = |v: f64| Exp::Number(v);
+        let x = || Exp::Variable("x".into());
+        let b = |op: BinOp, l: Exp, r: Exp| Exp::BinOp(op, Box::new(l), Box::new(r));
+        let regress = vec![
+            // NaN sign: 0 * inf
+            b(BinOp::Mul, n(0.0), n(f64::INFINITY)),
+            Exp::Xor(Box::new(x()), Box::new(b(BinOp::Mul, n(0.0), n(f64::INFINITY)))),
+            // underflow to zero in a folded divisor / factor
+            b(BinOp::Div, n(4.0), b(BinOp::Add, b(BinOp::Div, n(5e-324), n(4.0)), n(0.0))),
+            Exp::Iff(Box::new(b(BinOp::Div, n(1.0), x())), Box::new(b(BinOp::Mul, n(2e-5), n(5e-324)))),
+            // one ulp in a folded constant, amplified by cancellation
+            b(BinOp::Div, Exp::And(vec![]), b(BinOp::Add, x(), b(BinOp::Div, n(2.0), n(1.000000001)))),
+            // divisor undefined (empty max) but folded to a literal below an absorbing constant
+            b(BinOp::Div, n(0.2), b(BinOp::Or, Exp::Max(vec![]), n(-2.0))),
+            b(BinOp::Div, n(1.0), b(BinOp::Sub, b(BinOp::Mul, Exp::Min(vec![]), n(0.0)), n(1.0))),
+            // singleton collapse inside a divisor
+            Exp::UnOp(UnOp::Neg, Box::new(b(BinOp::Div, x(), b(BinOp::Sub, b(BinOp::Add, n(1.0), x()), Exp::Or(vec![x()]))))),
+            // the two known findings, minimal
+            b(BinOp::Mul, n(0.0), b(BinOp::Div, x(), n(0.0))),
+            Exp::And(vec![x(), n(1.0)]),
+        ];
+        for e in &regress {
+            cases.push(one(e, "simplify", "regression"));
+            cases.push(one(e, "flatten", "regression"));
+        }
+    }
     let cfgs = [
         ExpCfg { vars: vec!["x".into(), "y".into(), "z".into()], logic: true, minmax: true, special: false },
         ExpCfg { vars: vec!["x".into(), "y".into()], logic: false, minmax: false, special: false },
@@ -52,6 +198,9 @@ pub fn generate(seed: u64, n: usize, thorough: bool, _corpus: Option<&str>) -> V
         let tag = ["random-mixed", "random-arith", "random-special", "random-closed"][i % cfgs.len()];
         cases.push(one(&e, "simplify", tag));
         cases.push(one(&e, "flatten", tag));
+    }
+    for _ in 0..n / 4 {
+        if let Some(c) = respell_case(&mut r) { cases.push(c); }
     }
     cases
 }
